@@ -19,7 +19,7 @@ type Op struct {
 
 var OpKinds = []string{"remove-member", "swap-members", "rename-field", "add-field", "remove-message", "add-message",
 	"toggle-required", "change-field-type", "change-type-mapping", "add-enum-values", "add-group", "add-component",
-	"remove-component", "duplicate-field-number", "duplicate-msgtype", "reorder-messages", "add-nested-groups", "move-framing-field", "same-group-in-components", "change-version"}
+	"remove-component", "duplicate-field-number", "duplicate-msgtype", "reorder-messages", "add-nested-groups", "move-framing-field", "same-group-in-components", "change-version", "add-time-field"}
 
 // names the generator or the library's interfaces rely on
 var protectedFields = map[string]bool{
@@ -316,6 +316,34 @@ func Apply(base *schema.Schema, baseTM *schema.TypeMap, ops []Op) (s *schema.Sch
 			pos := op.B % (len(*h.members) + 1)
 			*h.members = append((*h.members)[:pos:pos], append([]*schema.Member{g}, (*h.members)[pos:]...)...)
 			note("add %d directly nested groups (%s ...) to %s at %d", depth, g.Name, h.label, pos)
+		case "add-time-field":
+			// a FIX type mapped to the Go type Time, and a field of it placed directly in a
+			// message, the header, the trailer, a component or a group: the file that gets it
+			// needs the time package
+			prot := protectedTypes(s)
+			var free []int
+			for j, e := range tm.Entries {
+				if !prot[e.Name] && e.Name != "NUMINGROUP" {
+					free = append(free, j)
+				}
+			}
+			if len(free) == 0 {
+				skip(op, "no unprotected FIX type")
+				continue
+			}
+			tname := tm.Entries[free[op.A%len(free)]].Name
+			for j := range tm.Entries {
+				if tm.Entries[j].Name == tname {
+					tm.Entries[j].Cast = "Time"
+				}
+			}
+			fresh++
+			fname := fmt.Sprintf("ZzWhen%d", fresh)
+			s.Fields = append(s.Fields, &schema.FieldDef{Number: strconv.Itoa(maxFieldNumber(s) + 1), Name: fname, Type: tname})
+			h := hs[op.B%len(hs)]
+			pos := op.C % (len(*h.members) + 1)
+			*h.members = append((*h.members)[:pos:pos], append([]*schema.Member{{Kind: "field", Name: fname, Required: op.C%2 == 0}}, (*h.members)[pos:]...)...)
+			note("map FIX type %s to Time and add field %s of that type to %s at %d", tname, fname, h.label, pos)
 		case "change-version":
 			// another protocol version: major and minor differ from each other
 			v := [][2]string{{"4", "2"}, {"5", "0"}, {"4", "3"}, {"4", "0"}, {"1", "1"}, {"10", "2"}}[op.A%6]
